@@ -96,7 +96,7 @@ static int Read(const unsigned char * bytes, size_t n, int * crashed)
 {
    unsigned char * x = (unsigned char *) malloc(n ? n : 1); UMessage m; volatile int nf = -1;
    if (n) memcpy(x, bytes, n);
-   *crashed = 0; g_runs++; alarm(10);
+   *crashed = 0; g_runs++; alarm(40);
    g_inReader = 1;
    if (sigsetjmp(g_jmp, 1) == 0)
    {
@@ -126,7 +126,7 @@ static void Gateway(const char * v, const unsigned char * s, size_t n, const uns
    memset(&f, 0, sizeof(f)); f.d = s; f.n = n; f.mode = mode;
    for (i=0; i<sizeof(c)/sizeof(c[0]); i++) if ((c[i] > 0)&&(c[i] < n)&&((f.ncuts == 0)||(c[i] > f.cuts[f.ncuts-1]))) f.cuts[f.ncuts++] = c[i];
    UGGatewayInitialize(&gw, inbuf, IN, outbuf, 64);
-   g_target = "UGDoInput"; g_runs++; alarm(10);
+   g_target = "UGDoInput"; g_runs++; alarm(40);
    while(calls++ < 100000)
    {
       UMessage m; const int32 r = UGDoInput(&gw, ~((uint32) 0), Recv, &f, &m);
